@@ -97,7 +97,7 @@ fn err_kind(stderr: &str) -> String {
 // ------------------------------------------------------------------------------------------------ the case
 
 #[derive(Clone)]
-enum Kind { Libcnb { pkg: String, bins: Vec<String> }, Composite { uri: String, deps: Vec<String>, platform: String }, Foreign }
+enum Kind { Libcnb { pkg: String, bins: Vec<String>, standalone: bool }, Composite { uri: String, deps: Vec<String>, platform: String }, Foreign }
 #[derive(Clone)]
 struct Bp { id: String, dir: String, descriptor: Vec<u8>, kind: Kind }
 
@@ -108,7 +108,7 @@ fn parse_bps(s: &str) -> Option<Vec<Bp>> {
         if p.len() != 5 { return None; }
         let kind = match p[3] {
             "F" => Kind::Foreign,
-            "L" => { let (pkg, bins) = p[4].split_once(':')?; Kind::Libcnb { pkg: pkg.into(), bins: split_list(bins, ",").iter().map(|x| x.to_string()).collect() } }
+            "L" | "S" => { let (pkg, bins) = p[4].split_once(':')?; Kind::Libcnb { pkg: pkg.into(), bins: split_list(bins, ",").iter().map(|x| x.to_string()).collect(), standalone: p[3] == "S" } }
             "C" => {
                 let q: Vec<&str> = p[4].split(':').collect();
                 if q.len() != 3 { return None; }
@@ -137,15 +137,28 @@ fn dir_of(ws: &Path, rel: &str) -> PathBuf { if rel == "." { ws.to_path_buf() } 
 fn materialise(ws: &Path, bps: &[Bp]) {
     fs::create_dir_all(ws).unwrap();
     let mut members = vec![];
+    let mut excluded = vec![];
+    let mut root_package = String::new();
     for bp in bps {
         let d = dir_of(ws, &bp.dir);
         fs::create_dir_all(&d).unwrap();
         fs::write(d.join("buildpack.toml"), &bp.descriptor).unwrap();
         match &bp.kind {
             Kind::Foreign => {}
-            Kind::Libcnb { pkg, bins } => {
-                members.push(bp.dir.clone());
-                fs::write(d.join("Cargo.toml"), format!("[package]\nname = \"{pkg}\"\nversion = \"0.0.0\"\nedition = \"2021\"\n")).unwrap();
+            Kind::Libcnb { pkg, bins, standalone } => {
+                let package = format!("[package]\nname = \"{pkg}\"\nversion = \"0.0.0\"\nedition = \"2021\"\n");
+                if bp.dir == "." {
+                    // the workspace root is itself a package (and a buildpack): one manifest with [package] and [workspace]
+                    root_package = package;
+                } else if *standalone {
+                    // its own cargo workspace, excluded from the outer one
+                    excluded.push(bp.dir.clone());
+                    fs::write(d.join("Cargo.toml"), format!("{package}\n[workspace]\n")).unwrap();
+                    fs::write(d.join(".ignore"), "packaged/\n").unwrap();
+                } else {
+                    members.push(bp.dir.clone());
+                    fs::write(d.join("Cargo.toml"), package).unwrap();
+                }
                 fs::create_dir_all(d.join("src/bin")).unwrap();
                 if bins.is_empty() { fs::write(d.join("src/lib.rs"), "pub fn nothing() {}\n").unwrap(); }
                 for b in bins {
@@ -162,7 +175,22 @@ fn materialise(ws: &Path, bps: &[Bp]) {
         }
     }
     let list: Vec<String> = members.iter().map(|m| toml_str(m)).collect();
-    fs::write(ws.join("Cargo.toml"), format!("[workspace]\nresolver = \"2\"\nmembers = [{}]\n", list.join(", "))).unwrap();
+    let excl: Vec<String> = excluded.iter().map(|m| toml_str(m)).collect();
+    let sep = if root_package.is_empty() { "" } else { "\n" };
+    fs::write(ws.join("Cargo.toml"), format!("{root_package}{sep}[workspace]\nresolver = \"2\"\nmembers = [{}]\nexclude = [{}]\n", list.join(", "), excl.join(", "))).unwrap();
+}
+
+/// the root of the cargo workspace `inv` belongs to: the innermost standalone crate at or above it, else the outer root
+fn effective_root(bps: &[Bp], inv: &str) -> String {
+    let mut best: Option<&str> = None;
+    for bp in bps {
+        if let Kind::Libcnb { standalone: true, .. } = &bp.kind {
+            if inv == bp.dir || inv.starts_with(&format!("{}/", bp.dir)) {
+                if best.map(|b| b.len() < bp.dir.len()).unwrap_or(true) { best = Some(&bp.dir); }
+            }
+        }
+    }
+    best.unwrap_or(".").to_string()
 }
 
 /// lexical resolution of `.` and `..` (the directories involved exist or are created by us, no symlinks among them)
@@ -211,7 +239,7 @@ fn contract(scratch: &str, p: &str) -> String {
 fn find_sub(h: &[u8], n: &[u8]) -> Option<usize> { h.windows(n.len()).position(|w| w == n) }
 
 /// the token of a regular file's content
-fn content_token(path: &Path, scratch: &str, ws: &Path, seeded: &[Vec<u8>]) -> String {
+fn content_token(path: &Path, scratch: &str, tdirs: &[PathBuf], seeded: &[Vec<u8>]) -> String {
     let Ok(bytes) = fs::read(path) else { return "raw:?".into() };
     // content put there by the case itself is reported as the bytes it is (the model knows it as such)
     if seeded.iter().any(|s| *s == bytes) { return format!("raw:{}", hex(&bytes)); }
@@ -224,11 +252,12 @@ fn content_token(path: &Path, scratch: &str, ws: &Path, seeded: &[Vec<u8>]) -> S
             if let Ok(s) = std::str::from_utf8(&rest[..end]) {
                 let parts: Vec<&str> = s.split(':').collect();
                 if parts.len() == 3 && (parts[2] == "dev" || parts[2] == "release") {
-                    let artifact = ws.join("target").join(TRIPLE).join(if parts[2] == "dev" { "debug" } else { "release" }).join(parts[1]);
-                    return match fs::read(&artifact) {
-                        Ok(a) if a == bytes => format!("art:{}:{}:{}", parts[2], parts[0], parts[1]),
-                        _ => format!("notart:{}:{}:{}", parts[2], parts[0], parts[1]),
-                    };
+                    // bytes identical to the cargo artifact (the outer workspace's target directory, or a standalone crate's own)
+                    let hit = tdirs.iter().any(|t| {
+                        let artifact = t.join(TRIPLE).join(if parts[2] == "dev" { "debug" } else { "release" }).join(parts[1]);
+                        matches!(fs::read(&artifact), Ok(a) if a == bytes)
+                    });
+                    return if hit { format!("art:{}:{}:{}", parts[2], parts[0], parts[1]) } else { format!("notart:{}:{}:{}", parts[2], parts[0], parts[1]) };
                 }
             }
         }
@@ -251,8 +280,8 @@ fn pkg_token(bytes: &[u8], scratch: &str) -> Option<String> {
 }
 
 /// sorted entries below the package directory
-fn tree(pkgdir: &Path, scratch: &str, ws: &Path, seeded: &[Vec<u8>]) -> String {
-    fn walk(root: &Path, dir: &Path, scratch: &str, ws: &Path, seeded: &[Vec<u8>], out: &mut Vec<(String, String)>) {
+fn tree(pkgdir: &Path, scratch: &str, ws: &[PathBuf], seeded: &[Vec<u8>]) -> String {
+    fn walk(root: &Path, dir: &Path, scratch: &str, ws: &[PathBuf], seeded: &[Vec<u8>], out: &mut Vec<(String, String)>) {
         let Ok(rd) = fs::read_dir(dir) else { return };
         for e in rd.filter_map(Result::ok) {
             let p = e.path();
@@ -298,18 +327,23 @@ fn run_case_inner(f: &[String], alone: bool) -> String {
         let Some(t) = unhx(pd) else { return "bad-case".into() };
         Some(if let Some(rest) = t.strip_prefix("$T") { format!("{scratch}{rest}") } else { t })
     };
-    let pkgdir = match &arg { None => ws.join("packaged"), Some(a) => lexical(&cwd.join(a)) };
+    let eff_root = dir_of(&ws, &effective_root(&bps, inv));
+    let pkgdir = match &arg { None => eff_root.join("packaged"), Some(a) => lexical(&cwd.join(a)) };
+    let mut tdirs: Vec<PathBuf> = vec![ws.join("target")];
+    for bp in &bps { if let Kind::Libcnb { standalone: true, .. } = &bp.kind { tdirs.push(dir_of(&ws, &bp.dir).join("target")); } }
     if !pkgdir.starts_with(tmp.path()) { return "bad-case:package-dir-outside-scratch".into(); }
     // the ignore file for the output directory (the property's quantifier)
     let mut ignore = String::from("packaged/\n");
-    if let Ok(rel) = pkgdir.strip_prefix(&ws) { if !rel.as_os_str().is_empty() { ignore.push_str(&format!("/{}/\n", rel.to_str().unwrap())); } }
-    fs::write(ws.join(".ignore"), ignore).unwrap();
+    if let Ok(rel) = pkgdir.strip_prefix(&eff_root) { if !rel.as_os_str().is_empty() { ignore.push_str(&format!("/{}/\n", rel.to_str().unwrap())); } }
+    fs::write(eff_root.join(".ignore"), &ignore).unwrap();
+    if eff_root != ws { fs::write(ws.join(".ignore"), "packaged/\n").unwrap(); }
 
     let _guard = if alone { Guard::Excl(ALONE.write().unwrap()) } else { Guard::Shared(ALONE.read().unwrap()) };
 
     // an earlier complete run
     if f[3] != "-" {
         let Some((pinv, pprof)) = f[3].split_once(',') else { return "bad-case".into() };
+        if effective_root(&bps, pinv) != effective_root(&bps, inv) { return "bad-case:earlier-run-in-another-cargo-workspace".into(); }
         let pcwd = dir_of(&ws, pinv);
         // same package directory: the argument is re-expressed as an absolute path for the other invocation directory
         let parg = arg.as_ref().map(|_| pkgdir.to_str().unwrap().to_string());
@@ -321,12 +355,12 @@ fn run_case_inner(f: &[String], alone: bool) -> String {
         if apply_op(&pkgdir, op).is_none() { return "bad-case:op".into(); }
     }
     let seeded: Vec<Vec<u8>> = split_list(&f[4], "|").iter().filter_map(|op| op.split_once("=F").and_then(|(_, h)| unhex(h))).collect();
-    let pre = tree(&pkgdir, &scratch, &ws, &seeded);
+    let pre = tree(&pkgdir, &scratch, &tdirs, &seeded);
     let o = run_tool_once(&tool, tmp.path(), &cwd, release, arg.as_deref(), "run");
     if o.timed_out { return "timeout".into(); }
     let lines = stdout_lines(&scratch, &o.stdout);
     match o.status {
-        Some(0) => format!("ok;{};{};{}", lines, pre, tree(&pkgdir, &scratch, &ws, &seeded)),
+        Some(0) => format!("ok;{};{};{}", lines, pre, tree(&pkgdir, &scratch, &tdirs, &seeded)),
         Some(_) => format!("err:{};{}", err_kind(&o.stderr), lines),
         None => format!("err:killed;{lines}"),
     }
@@ -360,7 +394,7 @@ fn composite_toml(id: &str, style: u64, members: &[String]) -> Vec<u8> {
 fn enc_bp(bp: &Bp) -> String {
     let (k, extra) = match &bp.kind {
         Kind::Foreign => ("F", "-".to_string()),
-        Kind::Libcnb { pkg, bins } => ("L", format!("{}:{}", pkg, join(",", bins))),
+        Kind::Libcnb { pkg, bins, standalone } => (if *standalone { "S" } else { "L" }, format!("{}:{}", pkg, join(",", bins))),
         Kind::Composite { uri, deps, platform } => ("C", format!("{}:{}:{}", hx(uri), join(",", &deps.iter().map(|d| hx(d)).collect::<Vec<_>>()), platform)),
     };
     format!("{}>{}>{}>{}>{}", bp.id, bp.dir, hex(&bp.descriptor), k, extra)
@@ -389,7 +423,8 @@ fn up(from_dir: &str) -> String { if from_dir == "." { String::new() } else { ".
 struct Shape { bps: Vec<Bp>, plain_dirs: Vec<String> }
 
 fn fixed_shapes() -> Vec<Shape> {
-    let l = |id: &str, dir: &str, pkg: &str, bins: &[&str], style: u64| Bp { id: id.into(), dir: dir.into(), descriptor: component_toml(id, style), kind: Kind::Libcnb { pkg: pkg.into(), bins: bins.iter().map(|b| b.to_string()).collect() } };
+    let l = |id: &str, dir: &str, pkg: &str, bins: &[&str], style: u64| Bp { id: id.into(), dir: dir.into(), descriptor: component_toml(id, style), kind: Kind::Libcnb { pkg: pkg.into(), bins: bins.iter().map(|b| b.to_string()).collect(), standalone: false } };
+    let st = |id: &str, dir: &str, pkg: &str, bins: &[&str]| Bp { id: id.into(), dir: dir.into(), descriptor: component_toml(id, 1), kind: Kind::Libcnb { pkg: pkg.into(), bins: bins.iter().map(|b| b.to_string()).collect(), standalone: true } };
     let f = |id: &str, dir: &str| Bp { id: id.into(), dir: dir.into(), descriptor: component_toml(id, 0), kind: Kind::Foreign };
     let c = |id: &str, dir: &str, deps: &[&str], members: &[&str], style: u64| Bp { id: id.into(), dir: dir.into(), descriptor: composite_toml(id, style, &members.iter().map(|m| m.to_string()).collect::<Vec<_>>()),
         kind: Kind::Composite { uri: ".".into(), deps: deps.iter().map(|d| d.to_string()).collect(), platform: "none".into() } };
@@ -400,6 +435,15 @@ fn fixed_shapes() -> Vec<Shape> {
                           c("v/top", "meta/top", &["libcnb:v/mid", "libcnb:v/b", "https://example.com/bp.tgz"], &["v/mid", "v/b"], 1)], plain_dirs: vec!["meta".into()] },
         Shape { bps: vec![c("grp/all", "grp", &["libcnb:grp/inner", ".//inner/../../x/./y"], &["grp/inner"], 1), l("grp/inner", "grp/inner", "inner", &["inner", "inner-extra"], 3),
                           l("grp/amb", "grp/amb", "amb", &["amb-p", "amb-q"], 0), l("solo", "solo", "solo", &["solo"], 0)], plain_dirs: vec![] },
+        // the workspace root is itself a libcnb.rs buildpack (root package + members); another member is not among its dependencies
+        Shape { bps: vec![l("r/root", ".", "root-pkg", &["root-pkg", "root-tool"], 1), l("r/one", "sub/one", "one", &["one"], 0), f("ext/shell", "vendor/shell"),
+                          c("r/meta", "meta", &["libcnb:r/root", "../vendor/shell"], &["r/root"], 0)], plain_dirs: vec!["src".into(), "sub".into(), "sub/one/src".into()] },
+        // a composite at the workspace root with members below, a buildpack nested inside another buildpack's directory
+        Shape { bps: vec![c("c/root", ".", &["libcnb:c/dep", "bps/../vendor/none"], &["c/dep"], 1), l("c/dep", "bps/dep", "dep", &["dep"], 2), l("c/nested", "bps/dep/nested", "nested", &["nested", "nested-x"], 0),
+                          l("c/other", "bps/other", "other", &["other"], 3)], plain_dirs: vec!["bps".into(), "bps/dep/src".into()] },
+        // a buildpack crate that is its own cargo workspace (excluded from the outer one), with a composite nested in it, next to ordinary members
+        Shape { bps: vec![l("m/a", "m/a", "m-a", &["m-a"], 0), st("x/solo", "ext/solo", "solo-crate", &["solo-crate", "solo-aux"]), c("x/inner", "ext/solo/inner", &["libcnb:x/solo"], &["x/solo"], 0),
+                          c("m/all", "all", &["libcnb:m/a", "libcnb:x/solo"], &["m/a", "x/solo"], 1)], plain_dirs: vec!["ext".into(), "ext/solo/src".into(), "m/a/src".into()] },
     ]
 }
 
@@ -416,11 +460,19 @@ fn random_shape(r: &mut Rng, thorough: bool) -> Shape {
     let mut plain = vec![];
     let mut next = 0;
     let layout = r.below(3);
+    let special = r.below(8); // 0,1: a libcnb.rs buildpack at the workspace root; 2: a composite at the workspace root
+    let nest = r.chance(1, 4);
+    let own_ws = r.chance(1, 4);
     let mut bad_used = false; // at most one crate without a determined main binary (else the error kind depends on the walk order)
     for i in 0..n_l {
         let id = ids[next]; next += 1;
         let leaf = format!("l{i}");
         let dir = match (layout + i as u64) % 3 { 0 => format!("bps/{leaf}"), 1 => leaf.clone(), _ => format!("deep/er/{leaf}") };
+        // the first crate may be the root package of the workspace; the second may live inside the first one's directory
+        let dir = if i == 0 && special <= 1 { ".".to_string() }
+                  else if i == 1 && nest { let first = bps[0].dir.clone(); if first == "." { format!("inside/{leaf}") } else { format!("{first}/inside/{leaf}") } }
+                  else { dir };
+        let standalone = dir != "." && i + 1 == n_l && i > 0 && own_ws;
         let pkg = format!("c{i}-pkg");
         let roll = r.below(24);
         let roll = if roll >= 21 { if bad_used { 0 } else { bad_used = true; roll } } else { roll };
@@ -432,7 +484,7 @@ fn random_shape(r: &mut Rng, thorough: bool) -> Shape {
             21 | 22 => vec![format!("c{i}-p"), format!("c{i}-q")],
             _ => vec![],
         };
-        bps.push(Bp { id: id.into(), dir, descriptor: component_toml(id, r.below(4)), kind: Kind::Libcnb { pkg, bins } });
+        bps.push(Bp { id: id.into(), dir, descriptor: component_toml(id, r.below(4)), kind: Kind::Libcnb { pkg, bins, standalone } });
     }
     let mut foreign: Vec<(String, String)> = vec![];
     for i in 0..n_f {
@@ -443,7 +495,7 @@ fn random_shape(r: &mut Rng, thorough: bool) -> Shape {
     }
     for j in 0..n_c {
         let id = ids[next]; next += 1;
-        let dir = if r.chance(1, 2) { format!("meta/m{j}") } else { format!("m{j}") };
+        let dir = if j == 0 && special == 2 { ".".to_string() } else if r.chance(1, 2) { format!("meta/m{j}") } else { format!("m{j}") };
         let candidates: Vec<String> = bps.iter().filter(|b| !matches!(b.kind, Kind::Foreign)).map(|b| b.id.clone()).collect();
         let mut deps: Vec<String> = vec![];
         for _ in 0..r.range(1, 4) {
@@ -463,6 +515,11 @@ fn random_shape(r: &mut Rng, thorough: bool) -> Shape {
     }
     r.shuffle(&mut bps);
     for d in ["bps", "deep", "meta", "vendor"] { if bps.iter().any(|b| b.dir.starts_with(&format!("{d}/"))) { plain.push(d.to_string()); } }
+    // a directory inside a buildpack that is not itself a buildpack directory
+    let crates: Vec<String> = bps.iter().filter(|b| matches!(b.kind, Kind::Libcnb { .. })).map(|b| b.dir.clone()).collect();
+    let inside = r.pick(&crates).clone();
+    plain.insert(0, if inside == "." { "src".to_string() } else { format!("{inside}/src") });
+    r.shuffle(&mut plain);
     Shape { bps, plain_dirs: plain }
 }
 
@@ -507,25 +564,30 @@ fn random_ops(r: &mut Rng, bps: &[Bp], release: bool, after_prev: bool) -> Vec<S
 }
 
 fn emit_case(emit: &mut dyn FnMut(Case), shape: &Shape, inv: &str, profile: &str, pd: Option<&str>, prev: &str, ops: &[String], family: &str) {
-    let bps = &shape.bps;
-    let inv_kind = if inv == "." { "root" } else { match bps.iter().find(|b| b.dir == inv).map(|b| &b.kind) { Some(Kind::Libcnb { .. }) => "libcnb", Some(Kind::Composite { .. }) => "composite", Some(Kind::Foreign) => "foreign", None => "plain" } };
+    let all = &shape.bps;
+    // what the tool sees: the buildpack directories at or below the root of the cargo workspace the invocation directory belongs to
+    let eff = effective_root(all, inv);
+    let visible: Vec<Bp> = all.iter().filter(|b| eff == "." || b.dir == eff || b.dir.starts_with(&format!("{eff}/"))).cloned().collect();
+    let bps = &visible;
+    let at_bp = all.iter().any(|b| b.dir == inv && !matches!(b.kind, Kind::Foreign));
+    let inv_kind = if inv == eff { if at_bp { if eff == "." { "root-and-buildpack" } else { "own-workspace-crate" } } else { "root" } } else { match bps.iter().find(|b| b.dir == inv).map(|b| &b.kind) { Some(Kind::Libcnb { .. }) => "libcnb", Some(Kind::Composite { .. }) => "composite", Some(Kind::Foreign) => "foreign", None => "plain" } };
     let packable: Vec<&Bp> = bps.iter().filter(|b| !matches!(b.kind, Kind::Foreign)).collect();
-    let roots: Vec<String> = match bps.iter().find(|b| b.dir == inv && !matches!(b.kind, Kind::Foreign)) { Some(b) => vec![b.id.clone()], None => if inv == "." { packable.iter().map(|b| b.id.clone()).collect() } else { vec![] } };
+    let roots: Vec<String> = match bps.iter().find(|b| b.dir == inv && !matches!(b.kind, Kind::Foreign)) { Some(b) => vec![b.id.clone()], None => if inv == eff { packable.iter().map(|b| b.id.clone()).collect() } else { vec![] } };
     let cl = closure(bps, &roots);
     let dangling = packable.iter().any(|b| refs(b).iter().any(|x| !packable.iter().any(|p| &p.id == x)));
-    let bad_bins = |b: &Bp| match &b.kind { Kind::Libcnb { pkg, bins } => bins.is_empty() || (bins.len() > 1 && !bins.contains(pkg)), _ => false };
+    let bad_bins = |b: &Bp| match &b.kind { Kind::Libcnb { pkg, bins, .. } => bins.is_empty() || (bins.len() > 1 && !bins.contains(pkg)), _ => false };
     let expect = if roots.is_empty() { "no-selection" } else if dangling { "dangling" } else if packable.iter().any(|b| cl.contains(&b.id) && bad_bins(b)) { "bad-bins" } else { "ok" };
     let release = profile == "release";
     let touched = ops.iter().any(|o| cl.iter().any(|id| { let d = dest_rel(release, id); let p = &o[1..]; p.starts_with(&format!("{d}/")) || p.starts_with(&format!("{d}=")) || p == d }));
     let stale = touched || (prev != "-");
     let extra_deps = cl.len() > roots.len();
     let multi_bin = packable.iter().any(|b| cl.contains(&b.id) && matches!(&b.kind, Kind::Libcnb { bins, .. } if bins.len() > 1));
-    let fields = vec![join(";", &bps.iter().map(enc_bp).collect::<Vec<_>>()), inv.to_string(), format!("{},{}", profile, pd.map(hx).unwrap_or_else(|| "-".into())), prev.to_string(), join("|", ops)];
+    let fields = vec![join(";", &all.iter().map(enc_bp).collect::<Vec<_>>()), inv.to_string(), format!("{},{}", profile, pd.map(hx).unwrap_or_else(|| "-".into())), prev.to_string(), join("|", ops)];
     let pd_kind = match pd { None => "default", Some(p) if p.starts_with("$T") => "absolute", Some(_) => "relative" };
     emit(Case {
         fields,
         tags: vec![("kind".into(), format!("{family}-{expect}")), ("inv".into(), inv_kind.into()), ("profile".into(), profile.into()), ("pkgdir".into(), pd_kind.into()),
-                   ("seed".into(), (if prev != "-" { "earlier-run" } else if ops.is_empty() { "clean" } else { "puts" }).into()), ("bps".into(), bps.len().to_string()),
+                   ("seed".into(), (if prev != "-" { "earlier-run" } else if ops.is_empty() { "clean" } else { "puts" }).into()), ("bps".into(), all.len().to_string()), ("unselected-besides".into(), u8::from(packable.len() > cl.len()).to_string()),
                    ("built".into(), cl.len().min(6).to_string()), ("deps-beyond-selection".into(), u8::from(extra_deps).to_string()), ("multi-bin".into(), u8::from(multi_bin).to_string())],
         nontrivial: expect == "ok" && (stale || extra_deps || multi_bin) || expect == "bad-bins",
     });
@@ -534,11 +596,11 @@ fn emit_case(emit: &mut dyn FnMut(Case), shape: &Shape, inv: &str, profile: &str
 fn inv_dirs(shape: &Shape, r: Option<&mut Rng>) -> Vec<String> {
     let mut v = vec![".".to_string()];
     match r {
-        None => { v.extend(shape.bps.iter().map(|b| b.dir.clone())); v.extend(shape.plain_dirs.iter().take(1).cloned()); }
+        None => { v.extend(shape.bps.iter().filter(|b| b.dir != ".").map(|b| b.dir.clone())); v.extend(shape.plain_dirs.iter().cloned()); }
         // random workspaces: every libcnb.rs / composite directory, the unselectable ones (foreign, plain) only now and then
         Some(r) => {
-            for b in &shape.bps { if !matches!(b.kind, Kind::Foreign) || r.chance(1, 3) { v.push(b.dir.clone()); } }
-            if r.chance(1, 3) { v.extend(shape.plain_dirs.iter().take(1).cloned()); }
+            for b in &shape.bps { if b.dir != "." && (!matches!(b.kind, Kind::Foreign) || r.chance(1, 3)) { v.push(b.dir.clone()); } }
+            if r.chance(1, 2) { v.extend(shape.plain_dirs.iter().take(1).cloned()); }
         }
     }
     v
@@ -568,14 +630,16 @@ fn generate(tier: &str, seed: u64, emit: &mut dyn FnMut(Case)) {
             let (prev, ops) = if mode < 6 { ("-".to_string(), vec![]) }
                 else if mode < 13 { ("-".to_string(), random_ops(&mut r, &shape.bps, profile == "release", false)) }
                 else {
-                    let pinv = if r.chance(1, 2) { ".".to_string() } else { r.pick(&packable_dirs).clone() };
+                    let here = effective_root(&shape.bps, &inv);
+                    let same: Vec<String> = packable_dirs.iter().filter(|d| effective_root(&shape.bps, d) == here).cloned().collect();
+                    let pinv = if same.is_empty() || r.chance(1, 2) { here.clone() } else { r.pick(&same).clone() };
                     let pprof = if r.chance(3, 4) { profile } else if profile == "dev" { "release" } else { "dev" };
                     (format!("{pinv},{pprof}"), random_ops(&mut r, &shape.bps, profile == "release", true))
                 };
             // an earlier run is only used where it succeeds (a failed run leaves an order-dependent tree): checked by the generator's own bookkeeping
             let packable: Vec<&Bp> = shape.bps.iter().filter(|b| !matches!(b.kind, Kind::Foreign)).collect();
             let dangling = packable.iter().any(|b| refs(b).iter().any(|x| !packable.iter().any(|p| &p.id == x)));
-            let any_bad = packable.iter().any(|b| matches!(&b.kind, Kind::Libcnb { pkg, bins } if bins.is_empty() || (bins.len() > 1 && !bins.contains(pkg))));
+            let any_bad = packable.iter().any(|b| matches!(&b.kind, Kind::Libcnb { pkg, bins, .. } if bins.is_empty() || (bins.len() > 1 && !bins.contains(pkg))));
             let prev = if prev != "-" && (dangling || any_bad) { "-".to_string() } else { prev };
             emit_case(emit, &shape, &inv, profile, pd, &prev, &ops, "random");
         }
